@@ -94,4 +94,20 @@ PROPS = {
         "quick": {"budget_s": 150, "chunk": 4, "chunk_timeout_s": 1200},
         "thorough": {"budget_s": 2400, "chunk": 4, "minimise_s": 300, "chunk_timeout_s": 2400},
     },
+    "C10": {
+        "test": "TestC10",
+        "level": "exploration",
+        "world": "didstore-only: 3-5 independent real DID stores (real go-stoabs/bbolt under the KV seam)",
+        "rule": "each run: a seeded set of accepted document events for 1-3 DIDs (creation, linear updates, forks from any earlier version, resolutions "
+                "referencing all leaves, services, keys, 2-3 controllers, deactivation on a branch, equal signing times, clock gaps, foreign prevs) delivered "
+                "to the stores in causal order (twice), seeded permutations and reverse order, with duplicates, a stop/reopen at a seeded position, and in "
+                "one third of the runs KV operation errors, commit failures and crash points followed by redelivery. Non-trivial: more than two events; "
+                "distinct = distinct decision hashes.",
+        "invariants": ["C10.replicas", "C10.stable", "C10.deactivated", "C10.resolved", "C10.counts"],
+        "assumptions": KV_ASSUME + ["event sets are generated directly at the store's interface (what the ambassador hands over after its checks); the path through gossip is covered by C07/C09",
+                                    "violations whose trigger is Go map iteration order replay probabilistically; the replay command repeats (bounded) until the first reproduction"],
+        "replay_attempts": 64,
+        "quick": {"budget_s": 60, "chunk": 150},
+        "thorough": {"budget_s": 900, "chunk": 150, "minimise_s": 120},
+    },
 }
